@@ -677,9 +677,74 @@ func rulePlanPriority(c *Ctx) {
 			return recv != nil && derivesFrom(recv, resultOfCall(p), 4)
 		})
 	}
+	req := "a voter is demoted or removed only when no replace and no promotion is pending (promotions first keeps the voter count from dipping)"
+	// table-driven form: an ordered array of the planner methods tried in a loop that returns the first
+	// non-empty plan — the priority is the order of the table
+	order := map[string]int{}
+	var table *ssa.Alloc
+	for _, b := range pp.Blocks {
+		for _, ins := range b.Instrs {
+			st, ok := ins.(*ssa.Store)
+			if !ok {
+				continue
+			}
+			ia, ok := st.Addr.(*ssa.IndexAddr)
+			if !ok {
+				continue
+			}
+			al, ok := ia.X.(*ssa.Alloc)
+			idx, isC := constInt(ia.Index)
+			mc, isMC := st.Val.(*ssa.MakeClosure)
+			if !ok || !isC || !isMC {
+				continue
+			}
+			for _, m := range []string{"planReplace", "planPromotePeer", "planDemotePeer", "planRemovePeer", "planAddPeer"} {
+				if g, ok := mc.Fn.(*ssa.Function); ok && isBoundOf(g, P.Method(opk, "Builder", m)) {
+					order[m] = int(idx)
+					table = al
+				}
+			}
+		}
+	}
 	for _, lowering := range []string{"planDemotePeer", "planRemovePeer"} {
-		c.need(rule, pp, "call "+lowering, instrCallMatcher(plan(lowering)), []Ev{exhausted("planReplace"), exhausted("planPromotePeer")}, all,
-			"a voter is demoted or removed only when no replace and no promotion is pending (promotions first keeps the voter count from dipping)")
+		if len(callsIn(pp, false, plan(lowering))) == 0 && table != nil {
+			_, hasR := order["planReplace"]
+			_, hasP := order["planPromotePeer"]
+			li, hasL := order[lowering]
+			okOrder := hasR && hasP && hasL && order["planReplace"] < li && order["planPromotePeer"] < li
+			// the table is walked in order and the first non-empty plan is returned
+			firstWins := false
+			for _, b := range pp.Blocks {
+				for _, ins := range b.Instrs {
+					cl, ok := ins.(*ssa.Call)
+					if !ok || cl.Call.IsInvoke() || cl.Call.StaticCallee() != nil || !loopsContain(pp, b) {
+						continue
+					}
+					if !derivesFrom(cl.Call.Value, func(v ssa.Value) bool {
+						if ia, ok := v.(*ssa.IndexAddr); ok && ia.X == ssa.Value(table) {
+							return true
+						}
+						if ix, ok := v.(*ssa.Index); ok {
+							if u, ok := ix.X.(*ssa.UnOp); ok && u.Op == token.MUL && u.X == ssa.Value(table) {
+								return true
+							}
+						}
+						return false
+					}, 3) {
+						continue
+					}
+					res := cl
+					found, _ := guardControlsReturn(pp, func(cond ssa.Value, pos bool) bool {
+						e, ok := cond.(*ssa.Call)
+						return ok && !pos && isEmpty.Match(e.Common()) && derivesFrom(callRecv(e.Common()), same(res), 4)
+					}, func(r *ssa.Return) bool { return true })
+					firstWins = firstWins || found
+				}
+			}
+			c.Check(okOrder && firstWins, rule, "position of "+lowering+" in the planner table of "+fnName(pp), req+" — in the table form: replace and promote come earlier in the table, and the loop returns the first non-empty plan", P.pos(pp.Pos()), "")
+			continue
+		}
+		c.need(rule, pp, "call "+lowering, instrCallMatcher(plan(lowering)), []Ev{exhausted("planReplace"), exhausted("planPromotePeer")}, all, req)
 	}
 }
 
